@@ -365,7 +365,9 @@ def write_evidence(prop, tier, seed, results, wall, violations, notes, harnesses
                     "satisfied cover goals (vacuity witnesses). This is bounded model checking: no states are enumerated.",
             "obligations": sum(r["checks_total"] for r in closed),
             "discharged": sum(r["checks_total"] - r["checks_failed"] for r in closed),
-            "exhaustive": False,
+            # true only where the symbolic inputs span the property's whole finite input space (C13: all 2^32
+            # identifiers, C14: all 2^48 byte strings and every configuration) and every harness closed
+            "exhaustive": bool(registry.PROPERTY_NOTES.get(prop, {}).get("exhaustive")) and all(r["status"] == "success" for r in results),
             "samples": samples,
             "harnesses": [
                 {
